@@ -30,7 +30,9 @@ RULE = ('documents generated from a small grammar (sections at three levels, sta
         'Renderer.render under two or three renderer names; faults on the real saved file: EVERY truncation point, single-bit '
         'flips (all in the thorough tier, sampled in quick), multi-bit flips, empty/missing/garbage/appended files, files of a '
         'foreign renderer, hand-built hostile pickles (wrong shapes at every level, read-only attribute names, empty ids, '
-        'non-string keys); sequences save/corrupt/restore/save with several fault points over two jobs and two renderers. '
+        'non-string keys); sequences save/corrupt/restore/save with several fault points over two jobs and two renderers; job-name '
+        'families in one directory (one name a proper suffix or prefix of another, equal up to case, names containing dots) so that '
+        'Compile.parse must skip exactly its own file and restore every other one. '
         'Non-trivial = the case contains a fault or at least two labels.')
 TRUSTED = ['modelled, not verified: the pickle module (Section variables pickle/unpickle; single hypothesis unpickle (pickle d) = Some d; '
            'per case the real pickle.loads outcome is given to the Model as the oracle answer)',
@@ -631,6 +633,28 @@ def attach_oracles(cases):
 # ------------------------------------------------------------------------------------------------
 # streams
 
+# Job-name families.  Compile.parse has to skip exactly its own <jobname>.paux and restore every other *.paux of the directory,
+# however similar the names: one job name a proper suffix / prefix of another, equal up to case, names containing dots
+# (jobname = basename without the LAST extension), a name that is another name plus an extension-like tail.
+JOB_FAMILIES = [('a', 'd', 'g'),
+                ('guide', 'userguide', 'guidebook'),
+                ('intro', 'part2-intro', 'Intro'),
+                ('notes', 'notes.v2', 'old.notes'),
+                ('v1.2', 'rev-v1.2', 'v1.2.1'),
+                ('b', 'a.b', 'B'),
+                ('x', 'xx', 'xxx'),
+                ('Main', 'main', 'MAIN')]
+
+
+def pick_jobs(rng, plain=0.34):
+    """three distinct job names: the plain a/d/g or a random arrangement of one of the families"""
+    if rng.random() < plain:
+        return JOB_FAMILIES[0]
+    fam = list(rng.choice(JOB_FAMILIES[1:]))
+    rng.shuffle(fam)
+    return tuple(fam)
+
+
 def run_op(doc, r):
     return dict(op='run', job=doc['job'], r=r, doc=doc)
 
@@ -660,42 +684,68 @@ def streams(rng, tier, boost):
         r = RENDERERS[t % 2]
         r2 = RENDERERS[(t + 1) % 2]
         nl = [0, 3, 1, 4, 0, 6, 2, 5][t % 8]
-        A = gen_doc(rng, 'a', nlabels=nl)
+        ja, jd, _ = pick_jobs(rng)
+        A = gen_doc(rng, ja, nlabels=nl)
         prefix = [run_op(A, r)]
         if t % 3 == 1:
-            prefix.append(run_op(A, r2))               # the same job saved under a second renderer: two sections in a.paux
+            prefix.append(run_op(A, r2))               # the same job saved under a second renderer: two sections in its .paux
         if t % 4 == 0:
-            prefix.insert(0, run_op(gen_doc(rng, 'a', nlabels=0), r2))   # an empty section of another renderer first
+            prefix.insert(0, run_op(gen_doc(rng, ja, nlabels=0), r2))   # an empty section of another renderer first
         labs = doc_labels(A)
-        A2 = gen_doc(rng, 'a', nlabels=rng.choice([1, 2, 3])) if t % 2 == 0 else A    # the document gains/changes labels
-        D = gen_doc(rng, 'd', nlabels=rng.choice([0, 1, 2]), refs=labs[:2])
-        tail = [run_op(D, r), run_op(A2, r), dict(op='restore', job='a', r=r, pre=['pre:1']),
-                dict(op='restore', job='a', r=r2, pre=[])]
-        templates.append((prefix, tail))
+        A2 = gen_doc(rng, ja, nlabels=rng.choice([1, 2, 3])) if t % 2 == 0 else A    # the document gains/changes labels
+        D = gen_doc(rng, jd, nlabels=rng.choice([0, 1, 2]), refs=labs[:2])
+        tail = [run_op(D, r), run_op(A2, r), dict(op='restore', job=ja, r=r, pre=['pre:1']),
+                dict(op='restore', job=ja, r=r2, pre=[])]
+        templates.append((prefix, tail, ja))
         scen.append(('template', len(templates) - 1))
         req.append(prefix + tail)
+
+    # --- job-name families (no fault): all three documents of a family live in one directory; every run must restore exactly
+    #     the two other files (through Compile.parse) and rewrite only its own ------------------------------------------------
+    nfam = (48 if quick else 240) * boost
+    for i in range(nfam):
+        fam = list(JOB_FAMILIES[1 + i % (len(JOB_FAMILIES) - 1)])
+        rng.shuffle(fam)
+        r1, r2 = rng.sample(RENDERERS, 2)
+        docs = {}
+        for j in fam:
+            docs[j] = gen_doc(rng, j, nlabels=rng.choice([1, 1, 2, 3]))
+        for j in fam:     # references to the labels of the two others
+            others = [l for k in fam if k != j for l in doc_labels(docs[k])[:1]]
+            docs[j]['items'] += [['ref', l] for l in others]
+        ops = [run_op(docs[j], r1) for j in fam]                      # first pass: the files appear one after the other
+        order = fam[:]
+        rng.shuffle(order)
+        ops += [run_op(docs[j], r1) for j in order]                   # second pass: each sees both others
+        if i % 3 == 0:
+            ops.insert(len(fam), run_op(docs[fam[0]], r2))            # a second renderer in one of the files
+            ops.append(run_op(docs[fam[1]], r2))
+        ops += [dict(op='restore', job=j, r=r1, pre=[]) for j in fam[:2]]
+        scen.append(('job-names', None))
+        req.append(ops)
 
     # --- clean sequences (no fault): round trip, per renderer, several documents -------------------------------------------
     nclean = (40 if quick else 200) * boost
     for i in range(nclean):
         r1, r2 = rng.sample(RENDERERS, 2)
-        A = gen_doc(rng, 'a')
+        ja, jd, jg = pick_jobs(rng)
+        A = gen_doc(rng, ja)
         la = doc_labels(A)
-        D = gen_doc(rng, 'd', refs=rng.sample(la, min(len(la), 2)))
+        D = gen_doc(rng, jd, refs=rng.sample(la, min(len(la), 2)))
         ops = [run_op(A, r1)]
         shape = rng.randrange(5)
         if shape == 0:
-            ops += [run_op(D, r1), dict(op='restore', job='a', r=r1, pre=[]), dict(op='restore', job='a', r=r2, pre=['pre:1'])]
+            ops += [run_op(D, r1), dict(op='restore', job=ja, r=r1, pre=[]), dict(op='restore', job=ja, r=r2, pre=['pre:1'])]
         elif shape == 1:
-            ops += [run_op(A, r2), dict(op='restore', job='a', r=r1, pre=[]), dict(op='restore', job='a', r=r2, pre=[]), run_op(D, r2)]
+            ops += [run_op(A, r2), dict(op='restore', job=ja, r=r1, pre=[]), dict(op='restore', job=ja, r=r2, pre=[]), run_op(D, r2)]
         elif shape == 2:
-            A2 = gen_doc(rng, 'a')
-            ops += [run_op(D, r1), run_op(A2, r1), dict(op='restore', job='a', r=r1, pre=[]), run_op(D, r1)]
+            A2 = gen_doc(rng, ja)
+            ops += [run_op(D, r1), run_op(A2, r1), dict(op='restore', job=ja, r=r1, pre=[]), run_op(D, r1)]
         elif shape == 3:
-            ops += [run_op(D, r2), run_op(D, r1), run_op(A, r1), dict(op='restore', job='d', r=r1, pre=['pre:1', 'pre:2'])]
+            ops += [run_op(D, r2), run_op(D, r1), run_op(A, r1), dict(op='restore', job=jd, r=r1, pre=['pre:1', 'pre:2'])]
         else:
             pre = la[:1] + ['pre:x']
-            ops += [dict(op='restore', job='a', r=r1, pre=pre), run_op(gen_doc(rng, 'g', refs=la[:1]), r1)]
+            ops += [dict(op='restore', job=ja, r=r1, pre=pre), run_op(gen_doc(rng, jg, refs=la[:1]), r1)]
         scen.append(('clean', None))
         req.append(ops)
 
@@ -703,11 +753,12 @@ def streams(rng, tier, boost):
     nseq = (120 if quick else 800) * boost
     for i in range(nseq):
         r1, r2 = rng.sample(RENDERERS, 2)
-        docs = {'a': gen_doc(rng, 'a'), 'd': gen_doc(rng, 'd')}
-        ops = [run_op(docs['a'], r1)]
+        ja, jd, _ = pick_jobs(rng)
+        docs = {ja: gen_doc(rng, ja), jd: gen_doc(rng, jd)}
+        ops = [run_op(docs[ja], r1)]
         for step in range(rng.randint(3, 7)):
             x = rng.random()
-            job = rng.choice(['a', 'a', 'd'])
+            job = rng.choice([ja, ja, jd])
             if x < 0.34:
                 how = rng.choice([['trunc', rng.randint(0, 400)], ['flip', [rng.randrange(4000)]],
                                   ['flip', [rng.randrange(4000) for _ in range(rng.randint(2, 6))]], ['empty'], ['delete'],
@@ -721,8 +772,8 @@ def streams(rng, tier, boost):
                 ops.append(run_op(docs[job], rng.choice([r1, r1, r2])))
             else:
                 ops.append(dict(op='restore', job=job, r=rng.choice([r1, r2]), pre=rng.choice([[], ['pre:1']])))
-        ops.append(run_op(docs['a'], r1))
-        ops.append(dict(op='restore', job='a', r=r1, pre=[]))
+        ops.append(run_op(docs[ja], r1))
+        ops.append(dict(op='restore', job=ja, r=r1, pre=[]))
         scen.append(('sequence', None))
         req.append(ops)
 
@@ -730,11 +781,12 @@ def streams(rng, tier, boost):
     nhost = (300 if quick else 2000) * boost
     for i in range(nhost):
         r = rng.choice(RENDERERS)
-        A = gen_doc(rng, 'a', nlabels=rng.choice([0, 1, 2, 3]))
-        D = gen_doc(rng, 'd', nlabels=rng.choice([0, 1]))
+        ja, jd, _ = pick_jobs(rng)
+        A = gen_doc(rng, ja, nlabels=rng.choice([0, 1, 2, 3]))
+        D = gen_doc(rng, jd, nlabels=rng.choice([0, 1]))
         proto = rng.choice([0, 2, 3, 4, 4, 4])
-        ops = [dict(op='corrupt', job='a', how=['pickle', hostile(rng, r, 'a'), proto]), dict(op='restore', job='a', r=r, pre=rng.choice([[], ['pre:1']])),
-               run_op(D, r), run_op(A, r), dict(op='restore', job='a', r=r, pre=[]), run_op(D, r)]
+        ops = [dict(op='corrupt', job=ja, how=['pickle', hostile(rng, r, ja), proto]), dict(op='restore', job=ja, r=r, pre=rng.choice([[], ['pre:1']])),
+               run_op(D, r), run_op(A, r), dict(op='restore', job=ja, r=r, pre=[]), run_op(D, r)]
         scen.append(('hostile', None))
         req.append(ops)
 
@@ -759,32 +811,32 @@ def streams(rng, tier, boost):
         cases.append(('clean', dict(ops=rr['ops'])))
         if not rr['ok']:
             continue
-        prefix, tail = templates[payload]
+        prefix, tail, ja = templates[payload]
         ct = rr['ops'][len(prefix):]
         snap = rr['snaps'][len(prefix) - 1]
-        b = bytes.fromhex(snap['a'])
+        b = bytes.fromhex(snap[ja])
         # every truncation point
         for n in range(len(b)):
-            cases.append(('truncation', dict(ops=set_ops(snap, 'a', b[:n], ['trunc', n]) + ct)))
+            cases.append(('truncation', dict(ops=set_ops(snap, ja, b[:n], ['trunc', n]) + ct)))
         # single-bit flips: all (thorough) or sampled (quick)
         bits = list(range(len(b) * 8))
         if quick:
             bits = sorted(rng.sample(bits, min(len(bits), (2000 * boost) // ntemp)))
         for i in bits:
-            cases.append(('bitflip-1', dict(ops=set_ops(snap, 'a', corrupt(b, ['flip', [i]]), ['flip', [i]]) + ct)))
+            cases.append(('bitflip-1', dict(ops=set_ops(snap, ja, corrupt(b, ['flip', [i]]), ['flip', [i]]) + ct)))
         # multi-bit
         for _ in range((60 if quick else 400) * boost):
             fl = sorted(rng.sample(range(len(b) * 8), rng.choice([2, 2, 3, 4, 8, 16])))
-            cases.append(('bitflip-n', dict(ops=set_ops(snap, 'a', corrupt(b, ['flip', fl]), ['flip', fl]) + ct)))
+            cases.append(('bitflip-n', dict(ops=set_ops(snap, ja, corrupt(b, ['flip', fl]), ['flip', fl]) + ct)))
         # empty, missing, garbage, appended, identical
         for how in [['empty'], ['delete'], ['keep'], ['append', '00'], ['append', '2e'], ['append', b.hex()], ['raw', b'not a pickle\n'.hex()],
                     ['raw', b'\x80\x04N.'.hex()], ['raw', b[1:].hex()], ['raw', (b[:len(b) // 2] + b[len(b) // 2 + 1:]).hex()]]:
-            cases.append(('other-faults', dict(ops=set_ops(snap, 'a', corrupt(b, how), how) + ct)))
+            cases.append(('other-faults', dict(ops=set_ops(snap, ja, corrupt(b, how), how) + ct)))
         # a file written by a different renderer only (foreign): take the saved file and rename its renderer
         ok, v = loads(b)
         if ok and type(v) is dict:
             foreign = pickle.dumps({'Other-' + k: x for k, x in v.items()})
-            cases.append(('foreign-renderer', dict(ops=set_ops(snap, 'a', foreign, ['foreign']) + ct)))
+            cases.append(('foreign-renderer', dict(ops=set_ops(snap, ja, foreign, ['foreign']) + ct)))
 
     attach_oracles([c for _, c in cases])
     for _, c in cases:
